@@ -86,7 +86,7 @@ def e_background2d(inp):
     from photutils.background import Background2D
     out = []
     # box sizes: dividing the image, full-width strips, height-1 boxes, remainders on both axes, box == image
-    for box in ((10, 12), (10, 36), (1, 12), (7, 8), (30, 36)):
+    for box in ((10, 12), (10, 36), (1, 12), (7, 8), (30, 36)) + ((inp['box_size_arr'],) if inp.get('box_size_arr') is not None else ()):
         kw = {k2: inp[k1] for k1, k2 in (('bkg_estimator', 'bkg_estimator'), ('bkgrms_estimator', 'bkgrms_estimator'), ('sigma_clip_obj', 'sigma_clip'),
                                          ('interpolator', 'interpolator')) if inp.get(k1) is not None}      # caller-owned helper objects (C10)
         b = Background2D(inp['data'], box, mask=inp.get('mask'), coverage_mask=inp.get('coverage_mask'), filter_size=3,
@@ -237,6 +237,40 @@ def e_segment_cutouts(inp):
     return out
 
 
+def e_plotting(inp):
+    """drawing helpers: they take an `origin` to shift what is drawn - the shift must be applied to a copy"""
+    import matplotlib
+    matplotlib.use('Agg')
+    import matplotlib.pyplot as plt
+    from photutils.aperture import CircularAnnulus, CircularAperture, EllipticalAperture, RectangularAperture
+    from photutils.background import Background2D
+    from photutils.segmentation import SourceCatalog
+    fig, ax = plt.subplots()
+    out = []
+    try:
+        aps = list(inp.get('apertures') or [CircularAperture(_positions(), 3.0), CircularAnnulus(_positions(), 4.0, 6.0)])
+        if inp.get('aperture5') is not None:
+            aps.append(inp['aperture5'])
+        aps += inp.get('apertures_more') or [EllipticalAperture(_positions()[0], 4.0, 2.0, theta=0.3), RectangularAperture(_positions(), 4.0, 2.0)]
+        for ap in aps:
+            out.append(len(ap.plot(ax=ax, origin=(3.0, 2.5), color='r')))
+            out.append(len(np.atleast_1d(ap._to_patch(origin=(1.0, -2.0)))))
+            bb = ap.bbox
+            for b in (bb if isinstance(bb, list) else [bb]):
+                b.plot(ax=ax, origin=(2.0, 1.0)); b.as_artist()
+        data = np.asarray(_strip(inp['data']), dtype=float)
+        segm = inp.get('segm') or _segm(inp)
+        segm.imshow(ax=ax); segm.imshow_map(ax=ax)
+        cat = SourceCatalog(data, segm)
+        out.append(len(cat.plot_kron_apertures(ax=ax, origin=(2.0, 1.0))))
+        out.append(len(cat.plot_circular_apertures(3.0, ax=ax, origin=(2.0, 1.0))))
+        out.append(len(cat.make_kron_apertures()))
+        Background2D(data, (10, 12), mask=inp.get('mask')).plot_meshes(ax=ax, outlines=True)
+    finally:
+        plt.close(fig)
+    return out
+
+
 def e_detect_threshold(inp):
     from photutils.segmentation import detect_threshold
     return [detect_threshold(inp['data'], 2.0, background=inp.get('bkg'), error=inp.get('error'), mask=inp.get('mask')),
@@ -282,7 +316,10 @@ def e_source_mask(inp):
 def e_find_peaks(inp):
     from photutils.centroids import centroid_com
     from photutils.detection import find_peaks
-    return [find_peaks(inp['data'], inp.get('thr', 12.0), box_size=5, mask=inp.get('mask')),
+    extra = []
+    if inp.get('border_width_arr') is not None:
+        extra = [find_peaks(inp['data'], inp.get('thr', 12.0), box_size=3, border_width=inp['border_width_arr'], mask=inp.get('mask'))]
+    return extra + [find_peaks(inp['data'], inp.get('thr', 12.0), box_size=5, mask=inp.get('mask')),
             find_peaks(inp['data'], inp.get('thr', 12.0), footprint=inp.get('footprint', np.ones((3, 5), dtype=bool)), mask=inp.get('mask'),
                        centroid_func=centroid_com, error=inp.get('error'), npeaks=3)]
 
@@ -318,7 +355,10 @@ def _cut(inp):
 def e_centroids(inp):
     from photutils.centroids import centroid_1dg, centroid_2dg, centroid_com, centroid_quadratic
     d, m, e = _cut(inp)
-    return [centroid_com(d, mask=m), centroid_quadratic(d, mask=m), centroid_1dg(d, error=e, mask=m), centroid_2dg(d, error=e, mask=m)]
+    extra = []
+    if inp.get('fit_boxsize_arr') is not None:      # caller-owned size arrays, larger than the cutout (they are clipped to it)
+        extra = [centroid_quadratic(d, mask=m, fit_boxsize=inp['fit_boxsize_arr'], search_boxsize=inp['search_boxsize_arr'])]
+    return [centroid_com(d, mask=m), centroid_quadratic(d, mask=m), centroid_1dg(d, error=e, mask=m), centroid_2dg(d, error=e, mask=m)] + extra
 
 
 def e_centroid_sources(inp):
@@ -532,6 +572,7 @@ ENTRIES = {
     'harmonics': dict(f=e_harmonics, uses=['data']),
     'interpolators': dict(f=e_interpolators, uses=['data', 'mask']),
     'segment_cutouts': dict(f=e_segment_cutouts, uses=['data', 'segm']),
+    'plotting': dict(f=e_plotting, uses=['data', 'segm', 'mask']),
 }
 
 
